@@ -360,7 +360,7 @@ def sweep_plans(pilot_counters, quick, rng):
 
 profiles.CHECKS["C12"] = {"profiles": [("lost_batch", 1.0)], "quick": {"runs": 2400}, "thorough": {"runs": 150000}}
 profiles.CHECKS["C11"] = {"profiles": [("crash_random", 1.0)], "sweep": "crash_sweep",
-                          "quick": {"runs": 1200, "pilots": 48}, "thorough": {"runs": 40000, "pilots": 1200}}
+                          "quick": {"runs": 1200, "pilots": 48}, "thorough": {"runs": 40000, "pilots": 400}}
 profiles.LEVELS["C11"] = "fault_enumeration"
 profiles.LEVELS["C12"] = "fault_enumeration"
 profiles.RULES["C12"] = ("seeded scenario + fault plan: sbatch failures (all attempts / permanent / unparsable response / k transient) "
